@@ -203,6 +203,13 @@ def main():
     i_mis = pevw.find("ifletSome(event_name)=event.as_ref(){ifletSome(type_name)=data.get(\"type\").and_then(|v|v.as_str()){ifevent_name!=type_name{errors.push(format!(")
     mismatch_after = fact(0 <= i_val < i_mis and pevw.count("errors.push(") == 1 and pevw.count("errors.extend(") == 2,
                           "ParsedEvent::event: validation errors first, then the mismatch error iff event_name != type_name — not in the expected shape")
+    data_is_parsed = fact(re.search(r"Self\{kind:ParsedEventKind::Event,event,raw,data:Some\(data\),errors,response_errors,\}\}$", pevw) is not None and pevw.count("Some(data)") == 1,
+                          "ParsedEvent::event does not end in `Self { kind: Event, event, raw, data: Some(data), errors, response_errors }`")
+    validation_data = fact(
+        "letvalidation_data=ifvalidation.normalize_missing_item_ids{normalize_event_for_validation(&data)}else{data.clone()};" in pevw
+        and "ifletSome(response)=validation_data.get(\"response\"){ifletErr(errs)=validate_response_resource(response){response_errors.extend(errs);}}" in pevw
+        and pevw.count("validation_data") == 3,
+        "ParsedEvent::event: validation_data (normalised iff the option is set) / validators on it — not in the expected shape")
     otd = ws(fn_body(lib, "fn output_text_delta(parsed: &ParsedEvent) -> Option<String>"))
     mo = re.match(r"\{letdata=parsed\.data\.as_ref\(\)\?;letobj=data\.as_object\(\)\?;letevent_type=obj\.get\(\"((?:\\.|[^\"\\])*)\"\)\.and_then\(\|value\|value\.as_str\(\)\);ifevent_type!=Some\(\"((?:\\.|[^\"\\])*)\"\)\{returnNone;\}obj\.get\(\"((?:\\.|[^\"\\])*)\"\)\.and_then\(\|value\|value\.as_str\(\)\)\.map\(\|value\|value\.to_string\(\)\)\}$", otd)
     fact(mo, "output_text_delta is not `data.as_object()?.get(type) == Some(OTD) => get(delta).as_str()`")
@@ -304,9 +311,9 @@ def main():
             "; ".join("(%s, %s)" % (coq_str(p), act) for p, act in rules), coq_bool(ok_empty_event), coq_bool(blank_dispatch),
             coq_str(join), coq_bool(finish), coq_str(done), max_nesting))
         f.write("Lemma gen_sse_decoder_ok : decoder_facts_ok gen_decoder_facts = true.\nProof. vm_compute. reflexivity. Qed.\n")
-        f.write("Definition gen_mapper_facts : mapper_facts :=\n  {| mf_type_key := %s;\n     mf_delta_key := %s;\n     mf_otd := %s;\n     mf_delta_from_object_only := %s;\n     mf_mismatch := [%s];\n     mf_mismatch_after_validation := %s;\n     mf_raw_for_text_kinds := %s;\n     mf_event_name_from_sse := %s;\n     mf_provider_then_delta := %s;\n     mf_seq_from_zero_by_one := %s |}.\n" % (
+        f.write("Definition gen_mapper_facts : mapper_facts :=\n  {| mf_type_key := %s;\n     mf_delta_key := %s;\n     mf_otd := %s;\n     mf_delta_from_object_only := %s;\n     mf_mismatch := [%s];\n     mf_mismatch_after_validation := %s;\n     mf_event_data_is_parsed_value := %s;\n     mf_validation_data := %s;\n     mf_raw_for_text_kinds := %s;\n     mf_event_name_from_sse := %s;\n     mf_provider_then_delta := %s;\n     mf_seq_from_zero_by_one := %s |}.\n" % (
             coq_str(type_key), coq_str(delta_key), coq_str(otd_lit), coq_bool(bool(mo)), "; ".join(coq_str(p) for p in mismatch), coq_bool(mismatch_after),
-            coq_bool(raw_for_text), coq_bool(name_from_sse), coq_bool(prov_then_delta), coq_bool(seq01)))
+            coq_bool(data_is_parsed), coq_bool(validation_data), coq_bool(raw_for_text), coq_bool(name_from_sse), coq_bool(prov_then_delta), coq_bool(seq01)))
         f.write("Lemma gen_sse_mapper_ok : mapper_facts_ok gen_mapper_facts = true.\nProof. vm_compute. reflexivity. Qed.\n")
         f.write("Definition gen_pipe_facts : pipe_facts :=\n  {| pf_offset_is_seq_at_creation := %s;\n     pf_drain_at_start := %s;\n     pf_drain_after_valid := %s;\n     pf_one_fffd_per_invalid := %s;\n     pf_incomplete_kept := %s;\n     pf_cut_in_push := %s;\n     pf_cut_in_finish := %s;\n     pf_cut_is_upto_first_done := %s;\n     pf_base_in_push := %s;\n     pf_base_in_finish := %s;\n     pf_seq_advanced_by_count := %s;\n     pf_reader_loop := %s |}.\n" % (
             coq_bool(offset_at_creation), drain0, drain1, coq_bool(one_fffd), coq_bool(incomplete_kept), coq_bool(cut_push), coq_bool(cut_fin), coq_bool(cut_first),
